@@ -166,7 +166,8 @@ class ProviderTap:
         self.side = side
         self.depth = 0
         self.cur_op = None
-        self.api_calls = 0              # engine-context _api() calls
+        self.op_api = 0                 # _api() calls made by the running outermost provider call
+        self.api_calls = 0              # engine-context _api() calls that are fault sites
         self.fault_plan = None          # callable(tap, api_index, api_args) -> exception instance or None
         self.after_plan = None          # callable(tap, write_index, op) -> exception or None (raised AFTER the op took effect)
         self.crash_after = None         # die after the k-th engine write (global index in world.engine_writes)
@@ -212,6 +213,7 @@ class ProviderTap:
             if engine and not is_write and not world.record_reads and tap.corrupt is None and tap.perm_fail is None:
                 # fast path for engine reads
                 tap.depth += 1
+                tap.op_api = 0
                 tap.cur_op = name
                 try:
                     return orig(*args, **kwargs)
@@ -255,6 +257,7 @@ class ProviderTap:
                 real_out = args[1]
                 args = (args[0], buf)
             tap.depth += 1
+            tap.op_api = 0
             tap.cur_op = name
             nev = len(tap.prov._events)                 # pylint: disable=protected-access
             try:
@@ -311,6 +314,12 @@ class ProviderTap:
             if world.ctx == "engine":
                 if world.dead:
                     raise Crash("dead")
+                # only the first API round trip of an outermost provider call is a fault site: the mock calls _api
+                # again after it has started mutating (debug logging walks the tree), and a fault there would tear
+                # the provider operation itself, which no real provider does
+                tap.op_api += 1
+                if tap.depth > 0 and tap.op_api > 1:
+                    return orig(*args, **kwargs)
                 tap.api_calls += 1
                 if tap.fault_plan is not None:
                     e = tap.fault_plan(tap, tap.api_calls, args)
@@ -326,7 +335,10 @@ class ProviderTap:
                         if isinstance(e, (ex.CloudDisconnectedError, ex.CloudTokenError)):
                             tap.prov.disconnect()
                         raise e
-            return orig(*args, **kwargs)
+                return orig(*args, **kwargs)
+            # users and the oracle have their own session with the account: the engine's connection state (which
+            # injected faults drop) does not concern them
+            return None
 
         self.prov._api = api                        # pylint: disable=protected-access
 
@@ -622,8 +634,6 @@ class Sim:
         w.ctx = "user"
         out = dict(op)
         try:
-            if not p.connected:
-                p.connect({"key": "val"})
             if kind == "create":
                 info = p.create(self.abspath(side, op["path"]), io.BytesIO(op["data"]))
                 out["oid"] = info.oid
@@ -663,10 +673,7 @@ class Sim:
         prev = w.ctx
         w.ctx = "oracle"
         p = self.providers[side]
-        reconnect = not p.connected
         try:
-            if reconnect:
-                p.connect({"key": "val"})
             root = root if root is not None else self.roots[side]
             info = p.info_path(root)
             out = {}
@@ -675,8 +682,6 @@ class Sim:
             self._walk(p, info.oid, "", out)
             return out
         finally:
-            if reconnect:
-                p.disconnect()
             w.ctx = prev
 
     def _walk(self, p, oid, rel, out):
@@ -697,17 +702,12 @@ class Sim:
         prev = w.ctx
         w.ctx = "oracle"
         p = self.providers[side]
-        reconnect = not p.connected
         try:
-            if reconnect:
-                p.connect({"key": "val"})
             out = {}
             info = p.info_path("/")
             self._walk(p, info.oid, "", out)
             return {"/" + k: v for k, v in out.items()}
         finally:
-            if reconnect:
-                p.disconnect()
             w.ctx = prev
 
 
